@@ -100,6 +100,14 @@ pub fn run(out: &mut Out, tier: &str, rng: &mut Rng) {
             }
         }
     }
+    // the hostile corpus shared by the session family
+    for h in hostile_corpus(rng) {
+        let mut st = session_frame(0x10, "h").bytes;
+        st.extend(&h.bytes);
+        st.extend(sess::frame(0x45, &[0x1E, 1]));
+        sess::run_case(out, &inst, "sess", &[Ev::Bytes(st), Ev::Close(*rng.pick(&Close::ALL))], true);
+        out.count(&format!("hostile corpus: {}", h.class));
+    }
     // all 256 type codes with a small payload
     for ty in 0..=255u8 {
         let gl = 1 + rng.below(30) as usize;
